@@ -111,6 +111,49 @@ def gen_arr(v, n, fill):
     return np.array([fill if e is None else e for e in v], dtype=float)
 
 
+FORMS = ("x0_view", "bounds_view", "ret_list", "ret_samebuf", "ret_noncontig", "mutates_x", "keeps_x", "np_scalars")
+
+
+def sample_forms(g, p=1.0):
+    """Value-preserving variations of HOW the arguments are passed and of what the residual function does with its argument / returns:
+    none of them may change a single evaluation point or result."""
+    if g.random() >= p:
+        return []
+    k = int(g.integers(1, 4))
+    out = sorted(set(pick(g, list(FORMS)) for _ in range(k)))
+    if "ret_samebuf" in out and "ret_list" in out:
+        out.remove("ret_list")
+    return out
+
+
+class FormedFun(object):
+    """The residual function as impolite-but-legitimate user code writes it: returns a list, or the same buffer on every call
+    (overwritten in place), or a strided view; overwrites the x it was given after using it; keeps a reference to that x."""
+
+    def __init__(self, f, forms, kept):
+        self.f, self.forms, self.kept = f, forms, kept
+        self.buf = None
+
+    def __call__(self, x, *a):
+        r = np.asarray(self.f(x, *a), dtype=float)
+        if "keeps_x" in self.forms and len(self.kept) < 400:
+            self.kept.append((x, np.array(x, copy=True)))
+        if "mutates_x" in self.forms and isinstance(x, np.ndarray) and x.flags.writeable:
+            x += 1.0e3
+            x *= -3.0
+        if "ret_samebuf" in self.forms or "ret_noncontig" in self.forms:
+            if self.buf is None or self.buf.shape[0] != 2 * len(r) + 1:
+                self.buf = np.zeros(2 * len(r) + 1)
+            if "ret_noncontig" in self.forms:
+                self.buf[1::2] = r
+                return self.buf[1::2]
+            self.buf[:len(r)] = r
+            return self.buf[:len(r)]
+        if "ret_list" in self.forms:
+            return r.tolist()
+        return r
+
+
 class NoisyFun(object):
     def __init__(self, f, sigma, nseed, additive=False):
         self.f, self.sigma, self.additive = f, sigma, additive
@@ -206,8 +249,18 @@ def build(cfg, ctx):
     b.f_det = f
     if spec.get("noise"):
         f = NoisyFun(f, float(spec["noise"]), spec.get("nseed", 0), additive=bool(spec.get("additive")))
+    forms = set(cfg.get("_forms") or ())
+    b.forms = forms
+    b.kept = []          # (reference to the array objfun was handed, copy taken at that moment) for the "keeps_x" form
+    if forms & {"ret_list", "ret_samebuf", "ret_noncontig", "mutates_x", "keeps_x"}:
+        f = FormedFun(f, forms, b.kept)
     b.objfun = f
     b.x0 = np.array(cfg["x0"], dtype=float)
+    if "x0_view" in forms:
+        # the caller's x0 is a strided view into a larger array (whose other entries must stay untouched as well)
+        b.x0_base = np.full(2 * n + 1, 7.25)
+        b.x0_base[1::2] = b.x0
+        b.x0 = b.x0_base[1::2]
     kw = {}
     a = cfg.get("args", {})
     for k in ("npt", "rhobeg", "rhoend", "maxfun", "scaling_within_bounds", "objfun_has_noise", "do_logging", "print_progress"):
@@ -216,9 +269,20 @@ def build(cfg, ctx):
     if cfg.get("lower") is not None or cfg.get("upper") is not None:
         lo = None if cfg.get("lower") is None else arr(cfg["lower"], n, -1e20)
         hi = None if cfg.get("upper") is None else arr(cfg["upper"], n, 1e20)
+        if "bounds_view" in forms:
+            base = np.full((2, 2 * n + 1), -3.5)
+            if lo is not None:
+                base[0, 1::2] = lo
+                lo = base[0, 1::2]
+            if hi is not None:
+                base[1, 1::2] = hi
+                hi = base[1, 1::2]
+            b.bounds_base = base
         kw["bounds"] = (lo, hi)
     if cfg.get("user_params") is not None:
         kw["user_params"] = dict(cfg["user_params"])
+        if "np_scalars" in forms:
+            kw["user_params"] = {k: (np.float64(v) if type(v) is float else v) for k, v in kw["user_params"].items()}
     b.nsamples = None
     if cfg.get("nsamples"):
         b.nsamples = engine.RecordedCallable(make_nsamples(cfg["nsamples"]), "nsamples", ctx)
